@@ -1,10 +1,53 @@
-//! C06 — (not built yet)
-#![allow(unused_imports, unused_variables, dead_code)]
+//! C06 — every successfully parsed tape is structurally sound (aggregate check).
+//!
+//! The ops live in the parser slices (`wftext` in c01.rs, `wfbin` in c03.rs): the real parser's
+//! tape is checked by an independent Rust structural checker (L3 oracle) and the Lean side parses
+//! the same bytes with the model and runs the proved checker `wfTextTape` / `wfBinTape`
+//! (C06_text_checker_sound / C06_bin_checker_sound; C06_text_inv / C06_bin_inv say the model's
+//! accepted tapes always pass). This module only assembles the generators, with emphasis on
+//! malformed-but-tolerated input.
 use crate::common::*;
+use crate::docgen;
 
-pub fn gen(g: &mut Gen) {}
+pub fn gen(g: &mut Gen) {
+    super::c01::gen_wf(g);
+    super::c03::gen_wf(g);
+    // tolerated malformations, text: stray '}', one missing '}', mixed containers, ghost objects,
+    // operator-in-array, parameter blocks cut short
+    for s in [
+        &b"a=b }"[..], b"a={b=c", b"a={b={c=d}", b"a={ 1 2 x=y 3 }", b"a={ x=y 1 2 }", b"{} a=b {} {}", b"a={ {} b=c }", b"a={ 1 = 2 }",
+        b"a={ b < c d }", b"a = { [[p] x=y ] }", b"a = { [[p] x=y", b"a = { [[!p] x ] z=w }", b"a=rgb{1 2 3} b=hsv{1 2 3}", b"a=LIST{{}}", b"a={{}}", b"a={{} {}}",
+        b"a=b=c", b"a={b=c}}", b"a={b}=c", b"\xef\xbb\xbfa=b }", b"a={b=c} }", b"a = { b = { c } } } d = e",
+    ] {
+        g.emit(format!("wftext {}", hex(s)));
+        for k in 0..s.len() { g.emit(format!("wftext {}", hex(&s[..k]))); }
+    }
+    let n = g.budget(2500, 120000);
+    for _ in 0..n {
+        let doc = docgen::gen_doc(&mut g.rng, &docgen::DocCfg { leading_empty_in_array: true, ..docgen::DocCfg::text_full() });
+        let base = docgen::render_layout(&mut g.rng, &docgen::LayoutCfg::full(), &docgen::lexemes(&doc));
+        let d = match g.rng.below(5) {
+            0 => base,
+            1 => { let k = g.rng.below(base.len() + 1); base[..k].to_vec() }
+            2 => { let mut v = base.clone(); let p = g.rng.below(v.len() + 1); v.insert(p, b'}'); v }
+            3 => { let mut v = base.clone(); if let Some(p) = v.iter().rposition(|b| *b == b'}') { v.remove(p); } v }
+            _ => docgen::mutate(&mut g.rng, &base, docgen::TEXT_ALPHABET),
+        };
+        g.emit(format!("wftext {}", hex(&d)));
+        let doc = docgen::gen_doc(&mut g.rng, &docgen::DocCfg { ghosts: true, mixed: true, ..docgen::DocCfg::shared() });
+        let base = docgen::render_binary(&mut g.rng, &docgen::BinCfg::default(), &doc);
+        let d = match g.rng.below(4) {
+            0 => base,
+            1 => { let k = g.rng.below(base.len() / 2 + 1) * 2; base[..k.min(base.len())].to_vec() }
+            2 => { let mut v = base.clone(); let p = g.rng.below(v.len() / 2 + 1) * 2; let tok: [u8; 2] = *g.rng.pick(&[[3u8, 0], [4, 0], [1, 0]]); for (i, b) in tok.iter().enumerate() { v.insert((p + i).min(v.len()), *b); } v }
+            _ => docgen::mutate(&mut g.rng, &base, &[0, 1, 3, 4, 0x0c, 0x0e, 0x0f, 0x14, 0x17, 0x0d, 0x67, 0x43, 0x9c, 2, 0xff, 0x20]),
+        };
+        g.emit(format!("wfbin {}", hex(&d)));
+    }
+    g.count("c06-tolerated-malformations");
+}
 
-pub fn exec(w: &[&str], obs: &mut Obs) -> Option<String> {
+pub fn exec(_w: &[&str], _obs: &mut Obs) -> Option<String> {
     None
 }
 
